@@ -120,7 +120,7 @@ def _is_translated_regex(prog, func, recv):
 def run(ctx):
     prog = ctx.prog
     ce = ConstEval(prog)
-    ctx.clauses_decided = ["R1 selection structure", "R2 registry determinism and pattern overlaps", "R3 declared names exist", "R4 result keys are constructor arguments", "R5 guaranteed means set", "R6 declared-list protocol"]
+    ctx.clauses_decided = ["R1 selection structure", "R2 registry determinism and pattern overlaps", "R3 declared names exist", "R4 result keys are constructor arguments", "R5 guaranteed means set", "R6 declared-list protocol", "R7 decorators attach the declared lists unchanged (evaluated)"]
     ctx.clauses_declined = ["case-folding behaviour of fnmatch per platform"]
     ctor_names, all_names = iodata_attr_names(prog)
     fm = prog.format_modules()
@@ -346,6 +346,81 @@ def run(ctx):
         ctx.ok("R6", "CLI help enumerates the registry with hasattr(module, op) for the four operations", mm.relpath)
     else:
         ctx.violate("R6", f"CLI help tests {sorted(ops_help)} instead of the four operations", relpath=mm.relpath, function="iodata.__main__.DESCRIPTION", construct="help hasattr ops")
+
+    # ------------------------------------------------------------------ R7
+    ctx.rule("R7", "the decorators attach the declared lists as written (evaluated)", "the lists that iodata reports for a format differ from the ones its source declares (names wrapped in markup, a default shared between functions, lists swapped)")
+    _check_decorator_passthrough(ctx)
+
+
+DECLARED = {"guaranteed", "ifpresent", "required", "optional"}
+
+
+def _check_decorator_passthrough(ctx):
+    """Each public `document_*` factory, evaluated on marker lists: the attributes attached to the decorated function
+    are the lists given (a missing optional list becomes an empty list), under their own names."""
+    from ..accessors import AccessorEval, Raised, Rec
+    from ..symarr import NotSymbolic
+
+    prog = ctx.prog
+    dm = prog.module("iodata.docstrings")
+    publics = [f for f in prog.package_funcs() if f.module is dm and f.parent is None and f.name.startswith("document_")]
+    n = 0
+    for pub in publics:
+        rets = [st for st in pub.body if isinstance(st, ast.Return)]
+        if len(rets) != 1 or not isinstance(rets[0].value, ast.Call) or not isinstance(rets[0].value.func, ast.Name):
+            raise AnalysisError(f"{pub.qualname}: expected a single `return _document_*(...)`")
+        inner = prog.funcs.get(f"{dm.name}.{rets[0].value.func.id}")
+        if inner is None:
+            raise AnalysisError(f"{pub.qualname}: cannot resolve {rets[0].value.func.id}")
+        decos = [st for st in inner.body if isinstance(st, ast.FunctionDef)]
+        if len(decos) != 1:
+            raise AnalysisError(f"{inner.qualname}: expected one inner decorator function")
+        deco = decos[0]
+        lists = [p_ for p_ in pub.posparams if p_ in DECLARED]
+        for missing in (False, True):
+            given = {}
+            for i, p_ in enumerate(lists):
+                given[p_] = None if (missing and i > 0) else [f"{p_}_x", f"{p_}_y"]
+            env = {p_: None for p_ in pub.posparams}
+            env.update(given)
+            env[pub.posparams[0]] = "FMT"
+            ev = AccessorEval(prog, None)
+            ev.module = dm
+            try:
+                ev._block([st for st in pub.body if not isinstance(st, ast.Return) and not (isinstance(st, ast.Expr) and isinstance(st.value, ast.Constant))], env)
+                call = rets[0].value
+                args = [ev._eval(a, env) for a in call.args]
+                kw = {k.arg: ev._eval(k.value, env) for k in call.keywords}
+                ienv = {p_: None for p_ in inner.posparams}
+                ienv.update(dict(zip(inner.posparams, args)))
+                ienv.update(kw)
+                ev._block([st for st in inner.body if not isinstance(st, (ast.FunctionDef, ast.Return)) and not (isinstance(st, ast.Expr) and isinstance(st.value, ast.Constant))], ienv)
+                func = Rec(None)
+                denv = dict(ienv)
+                denv[deco.args.args[0].arg] = func
+                stores = [st for st in ast.walk(deco) if isinstance(st, ast.Assign) and len(st.targets) == 1 and isinstance(st.targets[0], ast.Attribute) and isinstance(st.targets[0].value, ast.Name) and st.targets[0].value.id == deco.args.args[0].arg and st.targets[0].attr in DECLARED]
+                ev._block(stores, denv)
+            except Raised as exc:
+                ctx.violate("R7", f"{pub.name}: attaching the declared lists raises {exc.args[0]}", pub, pub.node, construct=f"{pub.name}: raises")
+                continue
+            except NotSymbolic as exc:
+                raise AnalysisError(f"{pub.qualname}: the decorator is outside the evaluation whitelist: {exc}") from exc
+            bad = None
+            for p_ in lists:
+                want = given[p_] if given[p_] is not None else []
+                got = func.fields.get(p_, "<not attached>")
+                if not (isinstance(got, (list, tuple)) and list(got) == want):
+                    bad = f"`{p_}` declared as {given[p_]!r} is attached as {got!r}"
+                    break
+            for extra in sorted(set(func.fields) & DECLARED - set(lists)):
+                bad = bad or f"an undeclared list `{extra}` is attached"
+            n += 1
+            label = "optional list omitted" if missing else "all lists given"
+            if bad:
+                ctx.violate("R7", f"{pub.name} ({label}): {bad}", inner, deco, construct=f"{pub.name}: {bad}"[:160])
+            else:
+                ctx.ok("R7", f"{pub.name} ({label}): {', '.join(lists)} are attached as declared", f"{dm.relpath}:{deco.lineno}")
+    ctx.floor("R7", n, 10, "decorator factory evaluations")
 
 
 def _hasattr_call(n, attrparam):
